@@ -253,6 +253,10 @@ def fresh():
         od = vars(obj)
         for k, v in snap.items():
             od[k] = copy.copy(v) if isinstance(v, (list, dict, set)) else v
+    # process-wide counters that end up in thread names
+    import itertools
+    import concurrent.futures.thread as _cft
+    _cft.ThreadPoolExecutor._counter = itertools.count().__next__
     # weak reference to the shared f_timeout executor
     ft = LIB.get("futures.timeout")
     if ft is not None and hasattr(ft, "EXECUTOR_REF"):
